@@ -295,8 +295,10 @@ def run(prop, tier):
     print(f"[{timer.s():.0f}s] traces validated", file=sys.stderr)
 
     base_ok = {i for i, v in enumerate(verdicts) if not any(not c.startswith("W.") for c, _ in v)}
-    ctl_total = sum(1 for i, _ in controls if i in base_ok)
-    ctl_rej = sum(1 for (i, _), v in zip(controls, cverd) if i in base_ok and any(c.startswith(prop + ".") for c, _ in v))
+    # (a sheet the documented format leaves open is not judged either way: it cannot serve as a control)
+    free = {i for (i, _), v in zip(controls, cverd) if any(c == "W.free_case_not_judged" for c, _ in v)}
+    ctl_total = sum(1 for i, _ in controls if i in base_ok and i not in free)
+    ctl_rej = sum(1 for (i, _), v in zip(controls, cverd) if i in base_ok and i not in free and any(c.startswith(prop + ".") for c, _ in v))
     if base_ok and (ctl_total == 0 or ctl_rej < ctl_total):
         common.die_machinery(f"negative controls: {ctl_rej}/{ctl_total} corrupted observations rejected by a {prop} clause")
 
